@@ -488,6 +488,14 @@ pub fn gen_steps(sw: &mut Rng, wl: &mut Rng, sheets: usize, n: usize) -> Vec<Ste
                         let c2 = ["A", "B", "C", "Z", "AA"][wl.usize(5)];
                         steps.push(Step::O(Op::SetText { sheet, cell: format!("{}{}", c2, r2), v: format!("{}:touched", tag) }));
                     }
+                } else if grid_heavy && wl.chance(1, 6) {
+                    // the same characters as rich and as plain text with one text cell between them in the row
+                    let sheet = wl.usize(sheets);
+                    let row = 1 + wl.below(12) as u32;
+                    let col = 1 + wl.below(4) as u32;
+                    let text = format!("{}:{}tw", tag, world::gen_text(wl, alpha, 2));
+                    steps.push(Step::O(Op::Twin { sheet, cell: format!("{}{}", world::col_letters(col), row), other_sheet: sheet, other_cell: format!("{}{}", world::col_letters(col + 2), row), text }));
+                    steps.push(Step::O(Op::SetText { sheet, cell: format!("{}{}", world::col_letters(col + 1), row), v: format!("{}:sep", tag) }));
                 } else if wl.chance(1, 3) {
                     steps.push(Step::O(Op::RemoveSheet { sheet: wl.usize(sheets), by_name: wl.chance(1, 2) }));
                 } else {
